@@ -220,8 +220,12 @@ def run(ctx):
                "slot versions must be loaded with acquire in the scan")
         # minimum: assignment min = local guarded by min > local
         ok = False
+        folds = {}
         for n in lig.ev_nodes(lambda n: n.id in llive and n.ev["e"] == "asg" and n.ev.get("op") == "="):
             lhs, rhs = pstr(n.ev["lhs"]), pstr(n.ev["rhs"])
+            is_cap = strip_cast(n.ev["lhs"]).get("k") == "cap"
+            if is_cap:
+                folds[n.id] = False
 
             def gt(atom, pol, lab):
                 c = L.effective_cmp(atom, pol)
@@ -232,12 +236,22 @@ def run(ctx):
             ge = L.cond_edges(lig, gt, llive)
             if ge and n.id not in lig.reach([lig.entry], removed_edges=ge):
                 ok = True
+                if is_cap:
+                    folds[n.id] = True
             # or min = std::min(min, local)
             mn = lig.ev_of(strip_cast(lig.resolve(n.ev["rhs"], n.frame)))
             if mn is not None and mn.ev["e"] == "call" and mn.ev.get("name") == "min" and \
                     any(pstr(strip_cast(lig.resolve(a_, mn.frame))) == lhs for a_ in mn.ev.get("args", [])):
                 ok = True
+                if is_cap:
+                    folds[n.id] = True
         ctx.ob("C09.R3c", inst, ok, lfn.loc, "the scan must keep the minimum slot version (assign only when current > slot)")
+        # R3f the callback runs once per block of the slot vector: what survives an invocation (a captured variable) is only ever
+        # lowered, never overwritten - otherwise the result is the minimum of the last block alone
+        ctx.ob("C09.R3f", inst, bool(folds) and all(folds.values()), lfn.loc,
+               "the scan callback is invoked once per block of the slot vector: every write to the captured result must keep the "
+               "minimum (guarded by result > value, or std::min(result, value)); an unconditional write makes low_water_mark the "
+               "minimum of the last block only and readers in earlier blocks are ignored", site="low_water_mark@fold-across-blocks")
         rets = [n for n in ig.ev_nodes() if n.id in live and n.ev["e"] == "ret" and n.frame.id == 0]
         init_ok = False
         for n in ig.ev_nodes(lambda n: n.id in live and n.ev["e"] == "decl" and n.frame.owner_id == 0):
